@@ -29,6 +29,7 @@ type SHole struct {
 	Typ  types.Type
 	Fn   string
 	Pos  token.Pos
+	Itoa bool // the expression is strconv.Itoa(x) / fmt.Sprint(x) with x an integer
 }
 type SCat struct{ Parts []Shape }
 type SLoop struct {
@@ -1225,7 +1226,17 @@ func pkgVarString(c *Ctx, v *types.Var) (string, bool) {
 }
 
 func (se *ShapeEval) hole(fr *shapeFrame, verb string, e ast.Expr) Shape {
-	return &SHole{Verb: verb, Expr: e, Path: fr.pc.path(e), Typ: fr.info.TypeOf(e), Fn: fr.fn.Name, Pos: e.Pos()}
+	h := &SHole{Verb: verb, Expr: e, Path: fr.pc.path(e), Typ: fr.info.TypeOf(e), Fn: fr.fn.Name, Pos: e.Pos()}
+	if call, ok := unparen(e).(*ast.CallExpr); ok && len(call.Args) == 1 {
+		if fn := callee(fr.info, call); fn != nil && (fn.FullName() == "strconv.Itoa" || fn.FullName() == "fmt.Sprint") {
+			if isIntType(fr.info.TypeOf(call.Args[0])) {
+				// the decimal text of an integer: the same hole as `%d` of that integer
+				a := call.Args[0]
+				return &SHole{Verb: "d", Expr: a, Path: fr.pc.path(a), Typ: fr.info.TypeOf(a), Fn: fr.fn.Name, Pos: a.Pos()}
+			}
+		}
+	}
+	return h
 }
 
 func (se *ShapeEval) sprintf(fr *shapeFrame, call *ast.CallExpr) Shape {
